@@ -241,7 +241,7 @@ func c09Client(c *eng.Ctx) {
 			c.Check(zero && eng.Origin(call.Call.Args[2]) == ssa.Value(nameP), "R-C09-4", f, in.Pos(), eng.CallStr(&call.Call), "plain Get for the same name on the oldVersion == 0 edge", "holding: "+eng.FactsString(in))
 			return
 		}
-		if cal.Origin() != nil && cal.Origin().Name() == "do" {
+		if cal.Origin() != nil && cal.Origin() == anchor(p, setecPkg, "do") {
 			n++
 			path, _ := eng.ConstString(call.Call.Args[2])
 			fields, _, okF := eng.LiteralFields(eng.Origin(call.Call.Args[3]))
